@@ -45,7 +45,7 @@ func (o Op) String() string {
 // end-of-input convention, and the operation sequence.
 type In struct {
 	Members []gen.ArmMember
-	Conv    int // 0: bytes.Reader; 1: a full read ending exactly at end of input returns (n, io.EOF)
+	Conv    int // reader kind, see gen.ArmReaderKinds (0: bytes.Reader; 1: a full read ending exactly at end of input returns (n, io.EOF); 2..: position consumed, strings.Reader, SectionReader, os.File, lying Len)
 	Ops     []Op
 	// Tars, when set, is parallel to Members: what member i's bytes are as a tar (nil: no claim), see tar.go.
 	Tars []*TarSpec `json:",omitempty"`
@@ -60,8 +60,8 @@ type DecIn struct {
 }
 
 func features(conv int) []string {
-	if conv == 1 {
-		return []string{"readerat-eof-with-full-read"}
+	if f := gen.ArmReaderFeature(conv); f != "" {
+		return []string{f}
 	}
 	return nil
 }
@@ -71,13 +71,14 @@ func features(conv int) []string {
 type fail struct{ clause, want, got string }
 
 type sess struct {
-	tars []*TarSpec
-	exp  []gen.ArmExpect
-	ar   *deb.Ar
-	got  []*deb.ArEntry
-	pos  []int
-	buf  []byte
-	part [2]byte
+	release func()
+	tars    []*TarSpec
+	exp     []gen.ArmExpect
+	ar      *deb.Ar
+	got     []*deb.ArEntry
+	pos     []int
+	buf     []byte
+	part    [2]byte
 }
 
 func open(b []byte, exp []gen.ArmExpect, conv int) (*sess, *fail) {
@@ -90,10 +91,14 @@ func open(b []byte, exp []gen.ArmExpect, conv int) (*sess, *fail) {
 	}
 	s.buf = make([]byte, 0, max+16)
 	var err error
-	if p, msg := mc.Guard(func() { s.ar, err = deb.LoadAr(gen.ArmReaderAt(b, conv)) }); p {
+	rd, release := gen.ArmOpen(b, conv)
+	s.release = release
+	if p, msg := mc.Guard(func() { s.ar, err = deb.LoadAr(rd) }); p {
+		release()
 		return nil, &fail{"no-panic", "LoadAr returns", "panic: " + msg}
 	}
 	if err != nil || s.ar == nil {
+		release()
 		return nil, &fail{"opens", "LoadAr succeeds on a well-formed archive", fmt.Sprintf("error: %v", err)}
 	}
 	return s, nil
@@ -224,6 +229,7 @@ func runOpsT(b []byte, exp []gen.ArmExpect, tars []*TarSpec, conv int, ops []Op)
 	if f != nil {
 		return -1, f
 	}
+	defer s.release()
 	s.tars = tars
 	for i, op := range ops {
 		if f := s.step(op); f != nil {
